@@ -120,7 +120,8 @@ Theorem deploy_resets_alignment : forall c x x', step c x Deploy = Some x' ->
   sent x' = repeat [] (n_senders c) /\ modes x' = modes x /\ done x' = done x.
 Proof.
   intros c x x' H. cbn in H. destruct (forallb _ (modes x)); [|discriminate].
-  destruct (batch (dt x)); [|discriminate]. cbn in H. injection H as <-. cbn. repeat split; reflexivity.
+  destruct (batch (dt x)); [|discriminate]. destruct (stopped (dt x)); [discriminate|].
+  cbn in H. injection H as <-. cbn. repeat split; reflexivity.
 Qed.
 Print Assumptions deploy_resets_alignment.
 
@@ -141,6 +142,38 @@ Proof.
   rewrite fold_apply_set_fault. cbn. auto.
 Qed.
 Print Assumptions sink_fault_keeps_state.
+
+(* A handler failure on the flush of a timed-out batch: the batch (already acknowledged to its senders) is lost and
+   the operator stops. A stopped operator is silent: whatever is still scheduled, nothing is handled, flushed,
+   applied, checkpointed or redeployed - in particular no checkpoint is ever reported without the lost events. *)
+Theorem failed_timeout_flush_stops : forall c x x', step c x TimeoutFail = Some x' ->
+  log (dt x') = log (dt x) /\ applied (dt x') = applied (dt x) /\
+  (stopped (dt x') = true \/ batch (dt x') = batch (dt x)).
+Proof.
+  intros c x x' H. cbn in H. destruct (sinkfault (dt x) || stopped (dt x)); [discriminate|].
+  destruct (inflight (dt x)); [discriminate|]. destruct (batch (dt x)) eqn:Eb.
+  - injection H as <-. cbn. try rewrite Eb. auto.
+  - destruct (_ =? _); injection H as <-; cbn; try rewrite Eb; auto.
+Qed.
+Print Assumptions failed_timeout_flush_stops.
+
+Theorem stopped_operator_is_silent : forall c x a x', stopped (dt x) = true -> step c x a = Some x' ->
+  log (dt x') = log (dt x) /\ applied (dt x') = applied (dt x) /\ stopped (dt x') = true.
+Proof.
+  intros c x a x' Hs H. unfold stopped in *. destruct (active (dt x)) eqn:Ea; [|discriminate].
+  destruct a; cbn in H.
+  - destruct (nth_error (modes x) s) as [[| |]|]; try discriminate. injection H as <-. cbn. rewrite Ea. auto.
+  - destruct (nth_error (modes x) s) as [[|g it|]|]; try discriminate. destruct (g <? done x); [|discriminate].
+    injection H as <-. cbn. rewrite Ea. auto.
+  - rewrite Ea in H. destruct (nth_error (modes x) s) as [[| |]|]; discriminate.
+  - destruct (armed (dt x)); [|discriminate]. injection H as <-. cbn. rewrite Ea. auto.
+  - unfold stopped in H. rewrite Ea, orb_true_r in H. discriminate.
+  - destruct (nth_error (modes x) s) as [[| |]|]; try discriminate. injection H as <-. rewrite Ea. auto.
+  - destruct (sinkfault (dt x)); [discriminate|]. injection H as <-. cbn. rewrite Ea. auto.
+  - unfold stopped in H. rewrite Ea in H. rewrite !andb_false_r in H. discriminate.
+  - unfold stopped in H. rewrite Ea, orb_true_r in H. discriminate.
+Qed.
+Print Assumptions stopped_operator_is_silent.
 
 (* ---------- non-vacuity: enabled schedules with parked senders, a pending batch at the last barrier,
    two consecutive checkpoints, a rejected barrier, a time-out flush ---------- *)
@@ -171,4 +204,12 @@ Example ex_redeploy :
              (exec ex_cfg (init ex_cfg) ex_acts2) = Some [Some (7, 2%nat)]
   /\ option_map (fun x => length (filter (fun e => match e with LCkpt _ _ => true | _ => false end) (log (dt x))))
              (exec ex_cfg (init ex_cfg) (firstn 7 ex_acts2)) = Some 0%nat.
+Proof. split; vm_compute; reflexivity. Qed.
+
+(* a time-out fires on a partial batch and the handler fails on that flush: the operator stops, no checkpoint follows *)
+Example ex_timeout_fail :
+  option_map (fun x => (stopped (dt x), batch (dt x), log (dt x)))
+             (exec ex_cfg (init ex_cfg) [Gate 0 (IEv 1 1 0); Handle 0; TimerFire; TimeoutFail; Gate 0 (IBar 1)])
+    = Some (true, [], [LAct (0%nat, 0%nat) (IEv 1 1 0) true])
+  /\ exec ex_cfg (init ex_cfg) [Gate 0 (IEv 1 1 0); Handle 0; TimerFire; TimeoutFail; Gate 0 (IBar 1); Handle 0] = None.
 Proof. split; vm_compute; reflexivity. Qed.
